@@ -11,7 +11,6 @@ import (
 	"os/exec"
 	"path/filepath"
 	"runtime"
-	"sort"
 	"strconv"
 	"strings"
 	"sync"
@@ -393,7 +392,6 @@ func main() {
 		infra = append(infra, "cannot write evidence: "+err.Error())
 	}
 
-	sort.Strings(lines)
 	for _, l := range lines {
 		fmt.Println(l)
 	}
